@@ -73,10 +73,18 @@ def tolerance_gate(r: R, chk, rule_prefix: str = ""):
     from .c08 import path_facts
 
     chk.floor("GATE-TOL", "state writes in update", len(writes), 2)
+    # a write is gated when no path reaches it without traversing the passing edge of the tolerance comparison, or an edge
+    # that establishes `tolerance is None` (the caller asked for no gate) — the two may be one test (`tol is not None and err > tol`)
+    # or nested tests
+    from .common import reach_cut
+    from .extra import edges_establishing
+
+    cut = {(g[0].id, g[1]) for g in gates} | edges_establishing(ctx, ("tolerance is None", True))
+    ungated = reach_cut(ctx, [ctx.cfg.entry], cut_edges=cut)
     for w in sorted(writes):
         n = ctx.cfg.nodes[w]
         a = ("self.ctrlpoints is None", True) in path_facts(ctx, w)
-        b = any(r.guard_dominates(ctx, g, w) for g in gates)
+        b = w not in ungated
         chk.ob("GATE-TOL", f"{UPDATE}: `{seg(n.ast, 50)}` only after `error > tolerance` ⇒ ValueError has passed (or no control points)", a or b, loc=r.loc(ctx, n.ast),
                detail="" if (a or b) else f"{UPDATE}: the state write `{seg(n.ast, 60)}` at {r.loc(ctx, n.ast)} is reachable without passing the tolerance comparison: a lossy removal / reduction is committed silently",
                func=UPDATE, construct=f"ungated write {seg(n.ast, 40)}")
